@@ -1309,13 +1309,40 @@ def is_reiterable_iterable(x: Any) -> bool:
 T_concat = TypeVar("T_concat")
 
 
+class _ConcatIterator(Iterator[T_concat]):
+    """Iterate over the elements of each collection of `colls` in turn.
+
+    Unlike `itertools.chain`, which drops its source for good once fetching the next
+    collection raises, this iterator only advances after a step succeeded. If
+    realizing a (lazy) collection or element raises, the exception propagates and a
+    later `next()` resumes at the same position rather than reporting the end of the
+    concatenation."""
+
+    __slots__ = ("_colls", "_cur")
+
+    def __init__(self, colls: Iterable[Iterable[T_concat] | None]) -> None:
+        self._colls = iter(colls)
+        self._cur: Any = None
+
+    def __iter__(self):
+        return self
+
+    def __next__(self) -> T_concat:
+        while True:
+            if self._cur is not None:
+                s = to_seq(self._cur)
+                if s is not None:
+                    self._cur = s.rest
+                    return s.first
+                self._cur = None
+            self._cur = next(self._colls)
+
+
 def concat_from_seq(seqs: Iterable[Iterable[T_concat] | None] | None) -> ISeq[T_concat]:
     """Given a seq of seqs, return a flat seq."""
     if seqs is None:
         return lseq.LazySeq(lambda: None)
-    return lseq.iterator_sequence(
-        itertools.chain.from_iterable(filter(None, map(to_seq, seqs)))
-    )
+    return lseq.iterator_sequence(_ConcatIterator(seqs))
 
 
 def concat(*seqs: Iterable[T_concat] | None) -> ISeq[T_concat]:
